@@ -164,6 +164,10 @@ class FnTranslator:
             if len(e.elts) == 0:
                 return 'V.nil'
             raise Untranslatable('tuple of length %d' % len(e.elts))
+        if isinstance(e, ast.Dict):
+            if e.keys:
+                raise Untranslatable('non-empty dict literal')
+            return '(V.dict V.nil)'
         if isinstance(e, ast.List):
             acc = 'V.nil'
             for x in reversed(e.elts):
@@ -419,6 +423,19 @@ class FnTranslator:
                 for n, t in zip(tg, tmps):
                     out += self.assign_to(n, t, ind)
                 return out
+            if isinstance(s.value, ast.Call) and isinstance(s.value.func, ast.Attribute) \
+                    and s.value.func.attr == 'setdefault' and isinstance(s.value.func.value, ast.Name) \
+                    and len(s.value.args) == 2 and not s.value.keywords:
+                d = s.value.func.value.id
+                if d not in self.locals:
+                    raise Untranslatable('.setdefault on a name that is never assigned')
+                t, t2 = self.fresh(), self.fresh()
+                out.append(f'{ind}let ({t}, {t2}) ← V.dictSetdefault {self.nm(d)} {self.expr(s.value.args[0])} '
+                           f'{self.expr(s.value.args[1])}')
+                out.append(f'{ind}{self.nm(d)} := {t2}')
+                for tgt in s.targets:
+                    out += self.assign_to(tgt, t, ind)
+                return out
             t = self.fresh()
             out.append(f'{ind}let {t} := {self.expr(s.value)}')
             for tgt in s.targets:
@@ -599,6 +616,8 @@ def show_v(v):
         return 's(%s,%s,%s)' % (show_v(v.start), show_v(v.stop), show_v(v.step))
     if isinstance(v, (tuple, list)):
         return '(' + ';'.join(show_v(x) for x in v) + ')'
+    if isinstance(v, dict):
+        return '{(' + ';'.join('(%s;%s)' % (show_v(k), show_v(x)) for k, x in v.items()) + ')}'
     raise ValueError('value outside the fragment: %r' % (v,))
 
 
